@@ -247,12 +247,12 @@ def _impl_worker(args):
         try:
             if use_alarm:
                 signal.signal(signal.SIGALRM, _case_alarm)
-                signal.alarm(limit)
+                signal.setitimer(signal.ITIMER_REAL, limit, 5)      # repeating: a swallowed alarm comes again
             try:
                 obs = mod.run_impl(inp, work)
             finally:
                 if use_alarm:
-                    signal.alarm(0)
+                    signal.setitimer(signal.ITIMER_REAL, 0)
         except CaseTimeout:
             # a call into the library that does not come back (a dead-locked worker pool, a loop that never advances):
             # reported as a failure of that case, never as a hanging check
